@@ -68,6 +68,9 @@ def generate(ck):
     descs.append({"cls": "ideal", "ratio": 0.3, "r": 4, "t_end": 1.0, "uniform_nt": True})
     descs.append({"cls": "single", "table": {"kind": "synthetic", "family": "const-diffusivity", "prm": [0.3, 0.6, 0.2], "n": 200, "p_lo": 50.0, "p_hi": 9000.0, "grid": "uniform", "seed": 0}, "p_i": 8000.0, "p_f": 3000.0, "r": 2, "t_end": 0.5, "uniform_nt": True})
     descs.append({"cls": "ideal", "ratio": 0.3, "r": 1, "t_end": 0.5, "fine": True})
+    # a very long history at a drawdown of 1e-4 of the pressure level: convergence does not depend on how
+    # many values have to be stored
+    descs.append({"cls": "single", "table": {"kind": "synthetic", "family": "const-diffusivity", "prm": [0.3, 0.6, 0.2], "n": 200, "p_lo": 50.0, "p_hi": 9000.0, "grid": "uniform", "seed": 0}, "p_i": 8000.0, "p_f": 7999.2, "r": 34, "t_end": 2.0, "huge": True})
     descs.append(dict(descs[0], decoy=True, t_end=5.0))
     descs.append(dict(descs[3], decoy=True, t_end=4.0))
     n = 2 if ck.tier == "quick" else 200
@@ -119,6 +122,8 @@ def run_case(ck, desc):
         rungs = [10, 20, 40] + ([80] if ck.tier == "thorough" else [])
     if desc.get("fine"):
         rungs = [500, 1000, 2000]  # beyond any size at which a solver might switch algorithms
+    if desc.get("huge"):
+        rungs = [250, 1000]  # the second rung stores 1000 x 34 001 values (beyond 2^25)
     coarse_nt = desc.get("coarse_nt")  # space-only refinement on a fixed, coarse output time grid
     if coarse_nt:
         rungs = [50, 100, 200, 400, 800]
@@ -168,6 +173,9 @@ def run_case(ck, desc):
             t = np.linspace(0.0, t_end, nt)
         if desc.get("uniform_nt"):
             t = np.linspace(0.0, t_end, nt)
+        if desc.get("huge"):
+            nt = 34 * nx + 1
+            t = np.linspace(0, math.sqrt(t_end), nt) ** 2
         res = IdealReservoir(nx, p_f, p_i, None) if cls == "ideal" else SinglePhaseReservoir(nx, p_f, p_i, fluid)
         sim.SIM_EVENTS.clear()
         sim.simulate(res, t, None)
@@ -201,6 +209,12 @@ def run_case(ck, desc):
         rf = np.asarray(res.recovery_factor(), dtype=float)
         plateau = (1 - p_f / p_i) if cls == "ideal" else R  # documented plateau of the flux recovery
         late = t >= (0.4 if coarse_nt else 0.05)
+        if desc.get("huge"):
+            # (the field is compared at 60 of the late stamps: the reference costs stamps x nodes x terms)
+            keep_ = np.flatnonzero(late)
+            late = np.zeros(len(t), dtype=bool)
+            late[keep_[:: max(1, len(keep_) // 60)]] = True
+            late[keep_[-1]] = True
         xs = (np.arange(nx) + 1) / nx
         if ref == "fourier":
             F = D.fourier_recovery(t)
